@@ -172,7 +172,7 @@ func c17RetryCases() []c17Case {
 	}
 	// the global timeout covers the whole request, retries included: every attempt silent, per-try 100 ms,
 	// retry back-off 10 ms -> attempts at 0, 110, 220 ms; the global timeout answers at 250 ms
-	for _, g := range []int{250, 150, 330} {
+	for _, g := range []int{250, 150, 330, 105, 215} { // 105, 215: the deadline falls inside a retry back-off
 		sc := hpScenario{Hosts: 2, RouteTimeoutMs: g, TryTimeoutMs: 100, RetryOn: true, NumRetries: 4,
 			Requests: []hpRequest{{Token: "t1", Script: []string{upSilent}}}}
 		sc.Name = fmt.Sprintf("retry global-timeout-spans-retries global=%d try=100", g)
